@@ -58,6 +58,9 @@ def obligations(tier):
         Ob("C03.hdr", "X", "header attributes (interleaving_id, valid_range=[0,max], burst counts) present exactly when the header field is non-blank, with its value; nothing else",
            ["ceos_alos2.sar_image.metadata:extract_attrs"], bounds="forall field values >= -1 (-1 = blank), interleaving blank or not",
            harness="harness/h_adapters.py", func="header_attrs_ok", timeout=to),
+        Ob("C03.hdr.flow", "X", "the header attributes arrive on the image group built by transform_metadata exactly when their field is filled, for both sample types "
+           "(level 1.1 complex and level 1.5 / 3.1 unsigned)", ["ceos_alos2.sar_image.metadata:transform_metadata", "ceos_alos2.sar_image.metadata:extract_attrs"],
+           bounds="forall field values >= -1 (-1 = blank), interleaving blank or not, both type codes", harness="harness/h_adapters.py", func="header_flow_ok", timeout=to),
     ]
     obs += plumb_obligations("C03", variants, IMG_FUNCS, to, "every location of the image group (variables on rows in file order, units, per-file attributes, shape, byte ranges, "
                              "type code) carries exactly its pinned source field - for all field values")
